@@ -164,8 +164,10 @@ func checkOperationIdentity(c *Ctx, gen *packages.Package) {
 		}
 		appended := false
 		for _, st := range rs.Body.List {
-			if as, ok := st.(*ast.AssignStmt); ok && len(as.Lhs) == 1 && goan.IsIdent(as.Lhs[0], "genOps") {
-				appended = true
+			if as, ok := st.(*ast.AssignStmt); ok && len(as.Lhs) == 1 && len(as.Rhs) == 1 && goan.NamedName(gen.TypesInfo.TypeOf(as.Lhs[0])) == "GenOperations" {
+				if call, ok := as.Rhs[0].(*ast.CallExpr); ok && goan.IsBuiltinCall(gen.TypesInfo, call, "append") {
+					appended = true
+				}
 			}
 		}
 		conts := 0
@@ -181,7 +183,7 @@ func checkOperationIdentity(c *Ctx, gen *packages.Package) {
 			}
 			return true
 		})
-		c.Check(appended, rule, "generator.appGenerator.makeCodegenApp › every operation is appended to genOps", c.posOf(gen, rs.Pos()), "unconditional append at loop level", "an operation may be left out of the generated application")
+		c.Check(appended, rule, "generator.appGenerator.makeCodegenApp › every operation is appended to the planned operations", c.posOf(gen, rs.Pos()), "unconditional append at loop level", "an operation may be left out of the generated application")
 		okC := conts == 2 && contConds[0] == "!ok" && strings.Contains(contConds[1], "len(intersected) == 0")
 		c.Check(okC, rule, "generator.appGenerator.makeCodegenApp › only the CLI tag filters skip an operation", c.posOf(gen, rs.Pos()), fmt.Sprintf("%v", contConds),
 			fmt.Sprintf("operations are skipped under %v: besides the two tag filters (analyzeTags, --tags) nothing may drop an operation silently", contConds))
@@ -436,7 +438,10 @@ func checkRouteClash(c *Ctx, gen *packages.Package) {
 	found, pos := false, fd.Pos()
 	ast.Inspect(fd.Body, func(n ast.Node) bool {
 		rs, ok := n.(*ast.RangeStmt)
-		if !ok || !goan.IsIdent(rs.X, "genOps") {
+		if !ok || goan.NamedName(info.TypeOf(rs.X)) != "GenOperations" {
+			return true
+		}
+		if _, isLocal := ast.Unparen(rs.X).(*ast.Ident); !isLocal {
 			return true
 		}
 		lookup, errRet, cleaned, method := false, false, false, false
